@@ -44,7 +44,9 @@ SOURCES = ["include/etl/_type_traits/is_constant_evaluated.hpp", "include/etl/_c
            "include/etl/_3rd_party/gcem/gcem_incl/find_whole.hpp"]
 RULE = ("every case is evaluated inside a constexpr table (constant evaluator) and at run time from volatile-laundered arguments "
         "at -O0, -O2 and -O1+ASan/UBSan, and by the Lean model/spec. Integer functions: every 8-bit argument (popcount u8, "
-        "add_sat and add_sat_fallback i8/u8: all 65536 pairs, the 14 cctype functions: all 257 arguments) plus boundary "
+        "add_sat i8/u8: all 65536 pairs; add_sat_fallback i8/u8: all 65536 pairs in the thorough tier, in the quick tier the pairs with y in a "
+        "boundary set (i8: -128..-126, -65..-63, -2..2, 62..64, 126, 127; u8: 0..2, 63, 64, 127..129, 191, 192, 253..255) or x+y within 2 "
+        "of a saturation bound (~6000 pairs per type); the 14 cctype functions: all 257 arguments) plus boundary "
         "(0, 1, 2^k, 2^k +- 1, limits) and seeded random values for 16/32/64 bit; byteswap and its fallback on those; C-string "
         "functions: every pair of strings of length <= 2 over {a, b, 0x80, 0xff} (strncmp with every n <= 3, strchr with every "
         "unit and 0, 256+unit, negative int) plus random longer ones; cmath (floor ceil trunc round rint lrint llrint signbit "
@@ -90,6 +92,38 @@ UNPROVED_OBSERVED = [
 ]
 SEARCH_CAP = 10 ** 9
 
+RULE += (" Added by the review: the same rows for the other spellings and overloads: floorf ceilf truncf roundf rintf lrintf llrintf "
+         "copysignf on a sub-sample of the binary32 table (every 5th pattern quick / every 2nd thorough plus the special values); the long "
+         "double overloads and floorl ceill truncl roundl rintl lrintl llrintl copysignl, signbit isnan isinf isfinite of long double: the "
+         "argument is a binary64 pattern x converted exactly to long double plus d units in the 11 further low bits of the 64-bit "
+         "significand (d = 0 on a sub-sample of the binary64 table; d in {1, 2047, random} on 30 % of it; for every binade 2^52..2^65 "
+         "significands 0, 1, all-ones, random with the fraction d at 1/2, 1/2 +- 1 unit, 1, 3/2, 1 unit, 2047 units, both signs), an extra "
+         "negation n (negative NaN = -(long double)NaN), results in two exact parts (rounded to binary64, and the rest); lrint family only "
+         "where the rounded value fits long long (exact rational arithmetic in the generator); the integral overloads floor ceil trunc "
+         "round rint lrint llrint isnan isinf of int32_t/int64_t: 0, +-1, +-2^k, +-2^k +- 1, limits, values beyond 2^53 that the conversion "
+         "rounds, random; detail::signbit_fallback<float/double/long double> called directly; copysign with NaN magnitudes (quiet, "
+         "signalling, payload; both signs) x sign sources of both signs, the sign of a NaN result printed; llrint/lrint of exactly -2^63; "
+         "byteswap of uint8_t/int8_t (all 256) and int16/32/64 (boundary + random). One constant-evaluated script per remaining "
+         "category, small box + seeded random (200-400 quick, ~1600 thorough each): static_vector<int, 8> push_back/erase/insert -> "
+         "weighted sum; inplace_string<16> build/append/find; string_view substr/find/compare; sort + lower_bound on <= 8 ints; "
+         "to_chars/from_chars of int32_t in every base 2..36; year_month_day{sys_days{days{n}}} for |n| <= 1.1e7.")
+UNPROVED_OBSERVED = [u for u in UNPROVED_OBSERVED if not u.startswith("long double overloads")] + [
+    "long double (x87 extended, 64-bit significand): the overloads and `l` spellings of floor ceil trunc round rint lrint llrint copysign "
+    "signbit isnan isinf isfinite are executed in constant evaluation and at run time and compared with the bit-level specification "
+    "instantiated at (15 exponent bits, 63 fraction bits) and with glibc, but they are not modelled: the model column repeats the "
+    "specification (rint_fallback<long double>, the gcem instantiations) or a driver-local transcription (copysign_fallback, "
+    "signbit_fallback<long double>), and no theorem covers them (the gcem theorems need mbits <= 62). Arguments are binary64 values "
+    "with up to 11 further significand bits; exponents outside the binary64 range, pseudo-denormals and unnormals are not generated",
+    "the `f`-suffixed spellings and the integral overloads call the same detail function as the unsuffixed float/double overload: "
+    "compared with its model and specification on a sub-sample, no separate theorem",
+    "detail::signbit_fallback<float/double> (code GCC never reaches through etl::signbit) is executed directly and compared with "
+    "Model.signbitFallback; the `arg != arg` alternative of etl::isnan is an #else branch that this toolchain does not compile and has "
+    "no callable name: Model.isnanFallback is not executable under this toolchain (no R1 tie)",
+    "containers, strings, views, algorithms, integer conversion, chrono: one constant-evaluated script per category (ops vec, istr, "
+    "sview, sortlb, conv, ymd) compared with run time, libstdc++ and a few lines of Lean (model = specification: single-path code); "
+    "the other members of these categories are exercised at run time only, by their own properties (C01-C12)",
+]
+
 # ---------------------------------------------------------------- operations
 F32 = [("x", "u32")]
 F64 = [("x", "u64")]
@@ -117,6 +151,35 @@ CTYPE = ["isalnum", "isalpha", "isblank", "iscntrl", "isdigit", "isgraph", "islo
          "isupper", "isxdigit", "tolower", "toupper"]
 for _f in CTYPE:
     TABLES["ctype_" + _f] = [("c", "int")]
+
+# ---- review items T1..T5: the other spellings and overloads, the detail fallbacks, the remaining categories
+for _n in ("floorf", "ceilf", "truncf", "roundf", "rintf", "lrintf", "llrintf", "signbit_fb"):
+    TABLES[_n + "_f32"] = F32
+TABLES["signbit_fb_f64"] = F64
+TABLES["copysignf_f32"] = [("x", "u32"), ("y", "u32")]
+LD_ROUND = ("floorl", "ceill", "truncl", "roundl", "rintl", "floor", "ceil", "trunc", "round", "rint")
+LD_LRINT = ("lrintl", "llrintl", "lrint", "llrint")
+LD_CLASS = ("signbit", "isnan", "isinf", "isfinite", "signbit_fb", "signbit_fb_negnan")
+for _n in LD_ROUND:          # long double argument = binary64 value x plus d low units (see LD() in harness/c13_ops.hpp); p = part
+    TABLES[_n + "_ld"] = [("x", "u64"), ("d", "u32"), ("p", "u32")]
+for _n in LD_LRINT:
+    TABLES[_n + "_ld"] = [("x", "u64"), ("d", "u32")]
+for _n in LD_CLASS:
+    TABLES[_n + "_ld"] = [("x", "u64"), ("d", "u32"), ("n", "u32")]
+for _n in ("copysign", "copysignl"):
+    TABLES[_n + "_ld"] = [("x", "u64"), ("y", "u64"), ("n", "u32")]
+INT_OVERLOADS = ("floor", "ceil", "trunc", "round", "rint", "lrint", "llrint", "isnan", "isinf")
+for _n in INT_OVERLOADS:
+    TABLES[_n + "_i32"] = [("x", "i32")]
+    TABLES[_n + "_i64"] = [("x", "i64")]
+for _t in ("u8", "i8", "i16", "i32", "i64"):
+    TABLES["byteswap_" + _t] = [("x", _t)]
+TABLES["vec"] = [("a", "ilist"), ("k", "int"), ("j", "int"), ("v", "int")]
+TABLES["istr"] = [("a", "ilist"), ("b", "ilist"), ("c", "int")]
+TABLES["sview"] = [("a", "ilist"), ("c", "int"), ("i", "int"), ("n", "int")]
+TABLES["sortlb"] = [("a", "ilist"), ("v", "int")]
+TABLES["conv"] = [("x", "i32"), ("b", "int")]
+TABLES["ymd"] = [("n", "i32")]
 
 BITS = {"u8": 8, "u16": 16, "u32": 32, "u64": 64, "i8": 8, "i16": 16, "i32": 32, "i64": 64}
 
@@ -158,6 +221,11 @@ def cxx_arg(ty, v):
     if ty == "str":
         units = [int(x) for x in v.strip("[]").split(",") if x]
         return '"' + "".join("\\%03o" % u for u in units) + '"'
+    if ty == "ilist":          # a constexpr aggregate: fixed array + size
+        items = [int(x) for x in v.strip("[]").split(",") if x]
+        if len(items) > 16:
+            raise lib.MachineryError("c13: list argument longer than 16")
+        return "c13::IL{%d, {%s}}" % (len(items), ", ".join(str(x) for x in items))
     i = int(v)
     if ty in ("u8", "u16", "u32"):
         return "c13::%s(0x%xu)" % (ty, i & ((1 << BITS[ty]) - 1))
@@ -453,7 +521,7 @@ def generate(tier, seed):
                 add(mk(fn + sfx, x=a), fn)
             conv_limit = 2.0 ** 63
             val = struct.unpack("<f", struct.pack("<I", b))[0] if fmt == 32 else struct.unpack("<d", struct.pack("<Q", b))[0]
-            if val == val and abs(val) < conv_limit:          # the domain of lrint: result representable
+            if val == val and (abs(val) < conv_limit or val == -conv_limit):          # the domain of lrint: result representable (-2^63 included)
                 add(mk("lrint" + sfx, x=a), "lrint")
                 add(mk("llrint" + sfx, x=a), "lrint")
         few = [b for b in tbl if rnd.random() < (0.05 if thorough else 0.03)]
@@ -549,9 +617,219 @@ def generate(tier, seed):
         # outside the domain: a few rows only (each is a compile error the check has to map back)
         for (x, y, z) in ((big, big, one), (inf_, 0, one), (inf_, one, inf_ | sgn)):
             fma_case(x, y, z, "fma/outside")
+    generate_extra(add, dist, seed, thorough)          # review items T1..T5 (below)
     res = (cases, False, dist)
     _CACHE[key] = res
     return res
+
+
+# ---------------------------------------------------------------- generator of the operations added by the review (T1..T5)
+def _f64val(b):
+    return struct.unpack("<d", struct.pack("<Q", b))[0]
+
+
+def ld_value(x, d):
+    """exact value (Fraction) of the long double argument LD(x, d) of harness/c13_ops.hpp; None for inf/NaN"""
+    import fractions
+    if is_nan(64, x) or (x & ((1 << 63) - 1)) == (0x7ff << 52):
+        return None
+    a = fractions.Fraction(_f64val(x))
+    ef = (x >> 52) & 0x7ff
+    if d and 64 <= ef <= 2045:
+        u = fractions.Fraction(2) ** (ef - 1023 - 63)
+        a = a - d * u if x >> 63 else a + d * u
+    return a
+
+
+def generate_extra(add, dist, seed, thorough):
+    rnd = random.Random(seed * 1000003 + 13)          # own stream: the cases of the older operations do not move
+    sgn32, sgn64 = 1 << 31, 1 << 63
+    t32 = boundary(32, rnd, thorough)
+    t64 = boundary(64, rnd, thorough)
+    must32 = [f32bits(v) for v in (0.0, 0.5, 1.5, 2.5, 0.25, 0.75, 1.0, 8388607.5, 8388608.0, 4194304.5, 9.223372e18)]
+    must32 += [0x7f800000, 0x7fc00000, 0x7f800001, 0x7fc00005, 0x5f000000, 0x5effffff, 1, 0x007fffff, 0x00800000]
+    must32 += [b | sgn32 for b in must32]
+    must64 = [f64bits(v) for v in (0.0, 0.5, 1.5, 2.5, 0.25, 0.75, 1.0, 4503599627370495.5, 4503599627370496.0,
+                                   2251799813685248.5, 9007199254740992.0, 9007199254740994.0, 2.0 ** 62, 2.0 ** 63, 2.0 ** 64,
+                                   1e300, 1.7976931348623157e308)]
+    must64 += [0x7ff0000000000000, 0x7ff8000000000000, 0x7ff0000000000001, 0x7ff8000000000005, 0x43dfffffffffffff, 1,
+               0x000fffffffffffff, 0x0010000000000000]
+    must64 += [b | sgn64 for b in must64]
+    st = 2 if thorough else 5
+    smp32 = sorted(set(t32[rnd.randrange(st)::st] + must32))
+    smp64 = sorted(set(t64[rnd.randrange(st)::st] + must64))
+    dist["sample_f32"], dist["sample_f64"] = len(smp32), len(smp64)
+
+    # T1(b): the f-suffixed spellings; T2: signbit_fallback<float/double>
+    for b in smp32:
+        for fn in ("floorf", "ceilf", "truncf", "roundf", "rintf"):
+            add(mk(fn + "_f32", x=b), "suffix_f")
+        v = struct.unpack("<f", struct.pack("<I", b))[0]
+        if v == v and (abs(v) < 2.0 ** 63 or v == -2.0 ** 63):
+            add(mk("lrintf_f32", x=b), "suffix_f")
+            add(mk("llrintf_f32", x=b), "suffix_f")
+    for b in t32[::2] + must32:
+        add(mk("signbit_fb_f32", x=b), "signbit_fb")
+    for b in t64[::2] + must64:
+        add(mk("signbit_fb_f64", x=arg_bits(64, b)), "signbit_fb")
+    # T3: copysign with NaN magnitudes of both signs (quiet, signalling, payload) and sign sources of both signs
+    for fmt, nans, others in ((32, [0x7fc00000, 0x7f800001, 0x7fc12345, 0x7fffffff], [0, 0x3f800000, 0x7f800000, 0x7fc00000, 1]),
+                              (64, [0x7ff8000000000000, 0x7ff0000000000001, 0x7ff8000012345678, 0x7fffffffffffffff],
+                               [0, 0x3ff0000000000000, 0x7ff0000000000000, 0x7ff8000000000000, 1])):
+        sg = 1 << (fmt - 1)
+        xs = nans + [b | sg for b in nans] + others + [b | sg for b in others]
+        ys = others + [b | sg for b in others] + [nans[1], nans[1] | sg]
+        for x in xs:
+            for y in ys:
+                add(mk("copysign_f%d" % fmt, x=arg_bits(fmt, x), y=arg_bits(fmt, y)), "copysign/nan")
+                if fmt == 32:
+                    add(mk("copysignf_f32", x=x, y=y), "suffix_f")
+    for x in smp32[::6]:
+        for y in (0, sgn32, 0x3f800000, 0xbf800000, 0x7fc00000, 0xffc00000):
+            add(mk("copysignf_f32", x=x, y=y), "suffix_f")
+
+    # T1(a): long double.  d = further low units of the 64-bit significand (arguments that are not doubles)
+    ldargs = set()
+    for b in sorted(set(t64[rnd.randrange(8)::8] + must64)) if thorough else sorted(set(smp64[::2] + must64)):
+        ldargs.add((b, 0))
+        ef = (b >> 52) & 0x7ff
+        if 64 <= ef <= 2045 and rnd.random() < 0.3:
+            for d in (1, 2047, rnd.randrange(1, 2048)):
+                ldargs.add((b, d))
+    for k in range(52, 66):          # 2^k <= |x| < 2^(k+1): D(x) is an integer and d/2^(63-k) its fraction; half = 2^(62-k) units
+        half = (1 << (62 - k)) if k <= 62 else 1024          # k >= 63: every value is an integer (2^64 - 1 = LD(2^64 - 2048, 2047))
+        for m in [0, 1, (1 << 52) - 1] + [rnd.getrandbits(52) for _ in range(5 if thorough else 1)]:
+            for s in (0, sgn64):
+                x = ((1023 + k) << 52) | m | s
+                for d in sorted({half, half - 1, half + 1, 2 * half, 3 * half, 1, 2047, 2048 - 2 * half, rnd.randrange(1, 2048)}):          # 2048 - 2 half: 2^(k+1) - 1
+                    if 0 < d < 2048:
+                        ldargs.add((x, d))
+    ldargs = sorted(ldargs)
+    dist["ld_args"] = len(ldargs)
+    for i, (x, d) in enumerate(ldargs):
+        for fn in LD_ROUND:
+            if not thorough and fn in LD_ROUND[5:] and i % 2 == 1 and not (d == 2047 and (x >> 52) & 0x7ff == 1085):
+                continue          # quick tier: the overload spelling (same detail function as the `l` spelling) on every other argument
+            for p in (0, 1):
+                add(mk(fn + "_ld", x=s64(x), d=d, p=p), "longdouble/round")
+        a = ld_value(x, d)
+        if a is not None and -(1 << 63) <= round(a) < (1 << 63):          # Fraction.__round__ rounds half to even
+            for fn in (LD_LRINT if (thorough or i % 2 == 0) else LD_LRINT[:2]):
+                add(mk(fn + "_ld", x=s64(x), d=d), "longdouble/lrint")
+    for x, d in ldargs[::3] + [(b, 0) for b in must64]:
+        for n in (0, 1):
+            for fn in ("signbit", "isnan", "isinf", "isfinite"):
+                add(mk(fn + "_ld", x=s64(x), d=d, n=n), "longdouble/class")
+            # T2: detail::signbit_fallback<long double>; a negative NaN goes to its own table (finding
+            # F-c13-signbit-fallback-longdouble-negative-nan)
+            neg_nan = is_nan(64, x) and ((x >> 63) ^ n) == 1
+            add(mk("signbit_fb_negnan_ld" if neg_nan else "signbit_fb_ld", x=s64(x), d=d, n=n),
+                "signbit_fb/negnan" if neg_nan else "signbit_fb")
+    grid = [0, 1, 0x3ff0000000000000, 0x3ff8000000000000, 0x7fefffffffffffff, 0x7ff0000000000000, 0x7ff8000000000000,
+            0x7ff0000000000001]
+    grid += [b | sgn64 for b in grid]
+    for x in grid:
+        for y in grid:
+            for n in ((0, 1, 2, 3) if (is_nan(64, x) or is_nan(64, y) or thorough) else (0, 3)):
+                add(mk("copysign_ld", x=s64(x), y=s64(y), n=n), "longdouble/copysign")
+                add(mk("copysignl_ld", x=s64(x), y=s64(y), n=n), "longdouble/copysign")
+
+    # T1(c): the integral overloads
+    for w in (32, 64):
+        lo, hi = -(1 << (w - 1)), (1 << (w - 1)) - 1
+        vals = {0, 1, -1, 2, -2, 3, lo, lo + 1, hi, hi - 1}
+        for k in range(1, w - 1):
+            vals.update([1 << k, (1 << k) - 1, (1 << k) + 1, -(1 << k), -(1 << k) - 1, -(1 << k) + 1])
+        if w == 64:          # the conversion to double rounds beyond 2^53
+            for k in (53, 54, 60, 62):
+                vals.update([(1 << k) + 1, (1 << k) + 2, (1 << k) + 3, -(1 << k) - 1, -(1 << k) - 3, (1 << k) + (1 << (k - 53)), (1 << k) + 3 * (1 << (k - 53))])
+        for _ in range(400 if thorough else 60):
+            vals.add(rnd.randint(lo, hi))
+            vals.add(rnd.randint(-(1 << 20), 1 << 20))
+        for v in sorted(vals):
+            for fn in INT_OVERLOADS:
+                if fn in ("lrint", "llrint") and not (-(2.0 ** 63) <= float(v) < 2.0 ** 63):
+                    continue          # (double)v == 2^63: outside the domain of lrint
+                add(mk("%s_i%d" % (fn, w), x=v), "integral")
+
+    # T5: byteswap of one-byte and signed types
+    for v in range(256):
+        add(mk("byteswap_u8", x=v), "byteswap")
+        add(mk("byteswap_i8", x=v - 128), "byteswap")
+    for w in (16, 32, 64):
+        lo, hi = -(1 << (w - 1)), (1 << (w - 1)) - 1
+        vals = {0, 1, -1, 2, -2, lo, lo + 1, hi, hi - 1, 0x0102030405060708 & hi, -(0x0102030405060708 & hi), 0x80, 0xff, 0x7f, -0x80, -0x81}
+        for k in range(w - 1):
+            vals.update([1 << k, -(1 << k), (0xff << k) & hi])
+        for _ in range(1000 if thorough else 100):
+            vals.add(rnd.randint(lo, hi))
+        for v in sorted(vals):
+            add(mk("byteswap_i%d" % w, x=v), "byteswap")
+
+    # T4: one constexpr row per remaining category
+    def ilist(n, lo, hi):
+        return [rnd.randint(lo, hi) for _ in range(n)]
+    # containers: static_vector<int, 8>: push_back all, erase index k (if k < size), insert v at j (if j <= size < 8)
+    for n in range(0, 4):          # small box
+        a = [7, -3, 5][:n]
+        for k in range(-1, n + 1):
+            for j in range(-1, n + 2):
+                add(mk("vec", a=lib.fmt_list(a), k=k, j=j, v=11), "ev_containers")
+    for _ in range(1500 if thorough else 250):
+        n = rnd.randint(0, 8)
+        add(mk("vec", a=lib.fmt_list(ilist(n, -50, 50)), k=rnd.randint(-1, 9), j=rnd.randint(-1, 9), v=rnd.randint(-50, 50)), "ev_containers")
+    # strings: inplace_string<16>: build a, append b, find c
+    al = [97, 98, 99]
+    small = [[]] + [[x] for x in al[:2]] + [[x, y] for x in al[:2] for y in al[:2]]
+    for a in small:
+        for b in small:
+            for c in (97, 98, 99):
+                add(mk("istr", a=lib.fmt_list(a), b=lib.fmt_list(b), c=c), "ev_strings")
+    for _ in range(1500 if thorough else 200):
+        na = rnd.randint(0, 15)
+        nb = rnd.randint(0, 15 - na)
+        alpha = rnd.choice([[97, 98], [97, 98, 99, 100], [1, 65, 127]])
+        add(mk("istr", a=lib.fmt_list([rnd.choice(alpha) for _ in range(na)]), b=lib.fmt_list([rnd.choice(alpha) for _ in range(nb)]),
+               c=rnd.choice(alpha + [122])), "ev_strings")
+    # views: string_view substr(i, n) (i <= size), find, compare with the whole
+    for a in small:
+        for i in range(0, len(a) + 1):
+            for n in range(0, 4):
+                for c in (97, 98):
+                    add(mk("sview", a=lib.fmt_list(a), c=c, i=i, n=n), "ev_views")
+    for _ in range(1500 if thorough else 200):
+        na = rnd.randint(0, 15)
+        alpha = rnd.choice([[97, 98], [97, 98, 99, 100], [1, 65, 127]])
+        add(mk("sview", a=lib.fmt_list([rnd.choice(alpha) for _ in range(na)]), c=rnd.choice(alpha + [122]), i=rnd.randint(0, na),
+               n=rnd.randint(0, 17)), "ev_views")
+    # algorithms: sort + lower_bound
+    import itertools
+    for n in range(0, 4):
+        for a in itertools.product((1, 2, 3), repeat=n):
+            for v in (0, 1, 2, 3, 4):
+                add(mk("sortlb", a=lib.fmt_list(list(a)), v=v), "ev_algorithms")
+    for _ in range(1500 if thorough else 200):
+        n = rnd.randint(0, 8)
+        r = rnd.choice([3, 10, 1000])
+        add(mk("sortlb", a=lib.fmt_list(ilist(n, -r, r)), v=rnd.randint(-r - 1, r + 1)), "ev_algorithms")
+    # integer conversion: to_chars / from_chars of an int32_t in base b
+    cv = {0, 1, -1, 9, 10, -10, 35, 36, 37, 255, 256, -255, (1 << 31) - 1, -(1 << 31), -(1 << 31) + 1, 1 << 30, 12345, -98765}
+    for v in sorted(cv):
+        for b in range(2, 37):
+            add(mk("conv", x=v, b=b), "ev_charconv")
+    for _ in range(1500 if thorough else 150):
+        v = rnd.choice([rnd.randint(-(1 << 31), (1 << 31) - 1), rnd.randint(-5000, 5000)])
+        add(mk("conv", x=v, b=rnd.choice([2, 8, 10, 16, 36, rnd.randint(2, 36)])), "ev_charconv")
+    # chrono: year_month_day{sys_days{days{n}}}
+    dv = set(range(-800, 800, 1 if thorough else 7)) | {0, -1, 1, 58, 59, 60, 365, 366, 11016, 11017, 11018, -719468, -719469, 10957, 19782}
+    for y in (1900, 2000, 2100, 2400, 1600, 1, 0, -1, -400, 30000, -30000):          # around 28 Feb / 1 Mar and the new year
+        base = (y - 1970) * 365 + (y - 1969) // 4 - (y - 1901) // 100 + (y - 1601) // 400
+        dv.update(range(base - 2, base + 2))
+        dv.update(range(base + 57, base + 62))
+    for _ in range(1500 if thorough else 200):
+        dv.add(rnd.randint(-11000000, 11000000))
+    for n in sorted(dv):
+        add(mk("ymd", n=n), "ev_chrono")
 
 
 # ---------------------------------------------------------------- tables, variants, compile-failure recovery
@@ -778,3 +1056,32 @@ CORRESPONDENCE_ONLY = [
     "IEEE operations of Tetl/C13/Float.lean (roundUnits, add, mul, fma) used as the specification of rounding/fma: validated "
     "against glibc on every case (R2), not proved against a rational-number semantics (that is C16's obligation)"]
 THEOREMS = {}
+
+
+# ---------------------------------------------------------------- finding of the long double rows (kept apart from classify() above)
+def classify_ld_below_2p63(case, k, row):
+    """F-c13-roundl-overflow-below-2p63.  The class is recomputed from the arguments: the long double argument is
+    +-(2^63 - 1/2), the only value of the 64-bit significand in [2^63 - 1/2, 2^63): LD(x, d) with |x| = 0x43dfffffffffffff
+    (2^63 - 1024) and d = 2047, operation round(long double) / roundl.  gcem round (both paths) converts floor(|x|) + 1 = 2^63 to
+    long long: not a constant expression; at run time the out-of-range conversion gives the result the wrong sign.
+    (rint/rintl of the same argument failed to constant-evaluate until 21f1c9f: fixed finding
+    F-c13-rintl-constexpr-overflow-below-2p63.)"""
+    op, a = parse(case.lines[k])
+    if op not in ("round_ld", "roundl_ld") or a.get("d") != "2047":
+        return None
+    x = int(a["x"]) & ((1 << 64) - 1)
+    if (x & ((1 << 63) - 1)) != 0x43dfffffffffffff:
+        return None
+    return "F-c13-roundl-overflow-below-2p63"
+
+
+_classify_two_path = classify
+
+
+def classify(case, k, row):          # noqa: F811  (wraps the classifier above; no change to it)
+    return classify_ld_below_2p63(case, k, row) or _classify_two_path(case, k, row)
+
+
+# the tables that hold rows known not to constant-evaluate (findings ...-below-2p63) are emitted with one constexpr variable per
+# row from the first compilation on: every failing row is then reported by that compilation (one recovery round instead of two)
+PERVAR.update(("round_ld", "roundl_ld"))
